@@ -51,6 +51,38 @@ CHECKS = {
    technique="regex-to-SMT language equivalence per pattern list (all names), bounded enumeration of pattern structure and histories"),
 }
 
+def bounded_only(what, design, extra=""):
+    return dict(
+        category="other",
+        text="In this revision the property is decided by a BOUNDED stand-in only (labelled bounded, not proved): " + what +
+             " The contract-based obligations planned for it in DESIGN.md are not generated yet" + (extra and "; " + extra or "") + ".",
+        design=design,
+        note="Bounded: the enumeration bounds and generators stated in the evidence file (coverage.bounded_stand_ins[*].rule / .bound). "
+             "The reference models are independent re-implementations written from the property statement.",
+        technique="bounded stand-in (reference-model comparison over enumerated / seeded inputs); deductive obligations pending")
+
+CHECKS.update({
+ "C01": dict(bounded_only("all sequences of <= 3/4 lines over 26 line-class representatives in three termination modes are parsed, dumped and "
+        "tokenised and compared with the input;", "DESIGN.md §5 C01"),
+        text="Two regex lemmas about the real _RE_FIELD_LINE / _RE_WHITESPACE_LINE (every prefix match of a line is a whole-line match) are "
+             "proved for all lines by SMT; the losslessness of tokenizer + parser + dump is decided by a bounded stand-in over all sequences "
+             "of <= 3/4 lines of 26 line-class representatives in three termination modes.",
+        technique="regex-to-SMT lemmas on the real patterns + bounded stand-in (sequence enumeration)"),
+ "C03": bounded_only("all ordered pairs of ~700-3000 generated valid versions are compared with a Policy-level specification, itself validated "
+        "against a transliteration of dpkg's verrevcmp and the dpkg binary; operators, symmetry, transitivity on triples and hash consistency;",
+        "DESIGN.md §5 C03"),
+ "C05": bounded_only("generated valid documents x histories of set/add/delete are checked byte-wise against spans from an independent scanner and "
+        "re-parsed;", "DESIGN.md §5 C05"),
+ "C09": bounded_only("operation histories on Deb822 mappings from five kinds of starting state are compared with a reference list model after every step;",
+        "DESIGN.md §5 C09"),
+ "C10": bounded_only("generated documents with unique / duplicated names x histories of order_*, sort_fields, indexed and unindexed set/delete, "
+        "insert/append are compared byte-wise and structurally with a reference model of field texts; every (name, i) is resolved;",
+        "DESIGN.md §5 C10"),
+ "C20": bounded_only("histories of read/insert/derivations are run on the real DB and on a reference model that shares and copies set objects as "
+        "documented; every live collection is compared after every step; the recorded findings are re-demonstrated by their specific histories;",
+        "DESIGN.md §5 C20"),
+})
+
 NOT_YET = "check not built yet in this revision of /verif (see DESIGN.md §7 for the order of construction)"
 
 def main():
